@@ -391,7 +391,10 @@ type Layout struct {
 
 var seps = []string{" ", "  ", "\n", "\t", " \n ", "\n\n", " ;c\n", ";; x y (\n", "\r\n", " ; \"\n", "\n\n\n",
 	// every character the scanner skips as white space separates tokens equally
-	"\f", "\v", "\u0085", "\u00a0", "\u2028", "\u2029", "\u3000", "\u1680", "\u2003", " \f", "\v "}
+	"\f", "\v", "\u0085", "\u00a0", "\u2028", "\u2029", "\u3000", "\u1680", "\u2003", " \f", "\v ",
+	// a comment runs to the end of its LINE: other control characters inside
+	// it (a bare carriage return, a form feed) do not end it
+	" ; was:\r(zz 1)\n", ";x\ry z\n", "; a\f(b\n", "\r", " \r ", "; c\r\n"}
 
 // glue reports whether two adjacent units need a separator to stay separate
 // lexemes.  Brackets delimit themselves; a quote prefix glues to what follows
